@@ -473,9 +473,9 @@ func (f *killKV) check() {
 	}
 }
 
-func (f *killKV) Set(k, v []byte) error        { f.check(); return f.FaultKV.Set(k, v) }
-func (f *killKV) Delete(k []byte) error        { f.check(); return f.FaultKV.Delete(k) }
-func (f *killKV) DeletePrefix(k []byte) error  { f.check(); return f.FaultKV.DeletePrefix(k) }
+func (f *killKV) Set(k, v []byte) error       { f.check(); return f.FaultKV.Set(k, v) }
+func (f *killKV) Delete(k []byte) error       { f.check(); return f.FaultKV.Delete(k) }
+func (f *killKV) DeletePrefix(k []byte) error { f.check(); return f.FaultKV.DeletePrefix(k) }
 func (f *killKV) Update(u func(tx kvi.KVTransaction) error) error {
 	f.check()
 	return f.FaultKV.Update(u)
